@@ -57,3 +57,11 @@ Print Assumptions C12_stalled_peers_do_not_delay.
 Theorem C12_connection_given_once : forall ops, NoDup (h_given (fst (hrun h0 ops))).
 Proof. exact given_once. Qed.
 Print Assumptions C12_connection_given_once.
+
+(* the handshaker loses nothing and invents nothing: while it is open, what the Waits have returned so far followed by
+   what is still waiting to be collected is exactly the list of handshakes that completed -- successes as pipes,
+   failures as errors -- in the order they completed *)
+Theorem C12_wait_returns_completions_in_order : forall ops, (forall o, In o ops -> o <> HClose) ->
+  results (snd (hrun h0 ops)) ++ h_done (fst (hrun h0 ops)) = finished h0 ops.
+Proof. exact wait_fifo_from_start. Qed.
+Print Assumptions C12_wait_returns_completions_in_order.
